@@ -28,6 +28,14 @@ OBLIGATIONS = [
     "Grog.C17.name_exact",
     "Grog.C17.print_parse_pattern",
     "Grog.C17.double_slash_witness",
+    "Grog.C17.parsed_label_ok",
+    "Grog.C17.parsed_pattern_ok",
+    "Grog.C17.print_parse_ok",
+    "Grog.C17.print_parse_pattern_matches",
+    "Grog.C17.root_recursive_matches_all",
+    "Grog.C17.recursive_name_exact",
+    "Grog.C17.relative_matches_iff",
+    "Grog.C17.pattern_shorthand",
 ]
 ASSUMPTIONS = [
     "errors of the Go parsers are compared only as ok / not ok",
